@@ -25,13 +25,13 @@ META = {
  "C10": ("conjugate validation (family, Gamma, dim 1, single occurrence, functional form) precedes every draw; dispatch tables agree; Direct.step is target.sample()",
          "call-graph must-pass-through + decision table of the pair selection + path effects of the step methods + re-bound captured variable lint with positive control (ast)"),
  "C11": ("no in-place or attribute write of the read API reaches a non-fresh object; conditioning returns fresh objects; copy-before-write; name survives copies",
-         "alias/freshness + effect analysis over the read-API closure + cache coherence of the accepted lazy caches through shallow copies + may-alias rule for sampler writes into target-owned objects with positive control (ast)"),
+         "alias/freshness + effect analysis over the read-API closure + cache coherence of the accepted lazy caches through shallow copies + may-alias rule for sampler writes into target-owned objects with positive control + read-only lint for the `_original_density` back-reference over all reaching definitions, with positive control (ast)"),
  "C12": ("inputs converted to function values exactly once according to the carried flag, outputs to parameters once; Samples/CUQIarray flags honoured; gradient guards; distribution branch only renames a copy",
          "typestate / provenance and decision tables (closed returned expression per valuation) over Model._apply_func/_2fun/_2par/gradient + tolerance-selected-shortcut lint + dynamic-attribute (`__getattr__`) lint for classes probed with hasattr, with positive control + decision table of Geometry.__eq__ (ast)"),
  "C13": ("conversion table of Samples/CUQIarray; par2fun and fun2par defined together; symmetric options; step-expansion intervals use complementary comparisons",
          "decision tables of the converters (loops stepped over and inspected as objects) + sibling-agreement lint over geometry classes (incl. vec2fun/par2fun outcome tables per option value) + MRO rule for wrapper shapes + axis lint for reductions inside geometry maps with positive control + one-partition rule for the two directions of StepExpansion (ast)"),
  "C14": ("checkpoint payload ⊇ loop-carried state; history unaliased; one transition/record/callback per iteration; config/state separation; key-set symmetry; initialisation-time randomness in the payload; legacy chain layout",
-         "interprocedural attribute effect analysis (upward-exposed reads vs must-writes), may-alias analysis incl. ownership of kernel arguments across calls and of arrays handed to the solvers (views through to_numpy), CFG loop-shape rules on substituted views, deep effect scan outside the Gibbs sweep loops, who-may-define rule for the chain loop, purity of the read accessors (effect summaries) (ast)"),
+         "interprocedural attribute effect analysis (upward-exposed reads vs must-writes), may-alias analysis incl. ownership of kernel arguments across calls and of arrays handed to the solvers (views through to_numpy), CFG loop-shape rules on substituted views, deep effect scan outside the Gibbs sweep loops, who-may-define rule for the chain loop, purity of the read accessors (effect summaries) + swapped-argument lint (exact two-way swaps against the callee's parameter names) with positive control + in-place-write lint for property setters (ast)"),
  "C15": ("closed-form MAP normalises every stored covariance form; function and gradient negated together; MAP and covariance built from the same matrices",
          "shape-dispatch completeness over four storage forms (path walk per valuation) + paired-negation rules + Gram-orientation of compute_cov + who-may-write rule for the stored covariance with dominance of the sqrtprec store + all-path outcomes of ML + alias analysis (ast)"),
  "C16": ("matrix form and function form of every solver step are the same expression under A@v<->A(v,1), A.T@v<->A(v,2); x0/b/A never modified in place; paired negation; SciPy result passed through; projection/prox one-liners",
